@@ -97,6 +97,10 @@ func (g *Generator) makeNullableSchema(schemaProxy *base.SchemaProxy) *base.Sche
 	if len(builtSchema.Type) > 0 {
 		builtSchema.Type = append(builtSchema.Type, "null")
 	}
+	// a nullable enum lists null among its values: "enum" restricts the instance whatever "type" says
+	if len(builtSchema.Enum) > 0 {
+		builtSchema.Enum = append(builtSchema.Enum, &yaml.Node{Kind: yaml.ScalarNode, Tag: "!!null", Value: "null"})
+	}
 
 	return base.CreateSchemaProxy(builtSchema)
 }
